@@ -33,38 +33,6 @@ theorem rinv_step {s s' : State} {t : Nat} {l' : Local} (R : RInv s)
   · exact hb c hpc
   · exact Nat.lt_of_lt_of_le (R.bound t1 l1 c h1 hpc) hlen
 
-/-- no transition stores the forwarding marker into a cell of the new table -/
-theorem MemStep.newCells {s s' : State} {l : Local} {g g' : Ghost} (m : MemStep s s' l g g')
-    (hL : s.lowCell ≠ .moved) (hH : s.highCell ≠ .moved) : s'.lowCell ≠ .moved ∧ s'.highCell ≠ .moved := by
-  cases m with
-  | same hh h0 hL' hH' hc => rw [hL', hH']; exact ⟨hL, hH⟩
-  | lock i x hh h0 hL' hH' hc => rw [hL', hH']; exact ⟨hL, hH⟩
-  | upd id act he _ =>
-    obtain ⟨C', u, -, -⟩ := he
-    constructor
-    · by_cases hid : CellId.low = id
-      · subst hid; exact u.notMoved
-      · have := u.cell .low hid
-        show getCell s' .low ≠ .moved
-        rw [this]; exact hL
-    · by_cases hid : CellId.high = id
-      · subst hid; exact u.notMoved
-      · have := u.cell .high hid
-        show getCell s' .high ≠ .moved
-        rw [this]; exact hH
-  | build h hp hv hc0 hh h0 hL' hH' hc => rw [hL', hH']; exact ⟨hL, hH⟩
-  | storeNew lo hg hp hh h0 hL' hH' hc =>
-    constructor
-    · rcases hL' with h | ⟨_, h⟩ <;> rw [h]
-      · exact hL
-      · exact cellOfHead_ne_moved _
-    · rcases hH' with h | ⟨_, h⟩ <;> rw [h]
-      · exact hH
-      · exact cellOfHead_ne_moved _
-  | casMoved hp hc0 hh h0 hL' hH' hc => rw [hL', hH']; exact ⟨hL, hH⟩
-  | commit hp hh h0 hL' hH' => rw [hL', hH']; exact ⟨hL, hH⟩
-  | moved h lo hg hp hv hlow hhigh hh h0 hL' hH' hc => rw [hL', hH']; exact ⟨hL, hH⟩
-
 /-- the thread-local effect of a transition: thread `t` gets a new local state, and if that is a
 reader standing on a node, the node is inside the (old) heap -/
 theorem stepK_threads {s s' : State} {g : Ghost} {t : Nat} {l : Local} (I : Inv s g) (R : RInv s)
@@ -125,7 +93,7 @@ theorem stepK_rinv {s s' : State} {g : Ghost} {t : Nat} {l : Local} (I : Inv s g
     (hl : s.threads[t]? = some l) (hk : StepK s t l s') : RInv s' := by
   obtain ⟨g', m, -⟩ := stepK_inv I hl hk
   have hlen := m.len_le I.heap
-  obtain ⟨hL, hH⟩ := m.newCells R.lowNM R.highNM
+  obtain ⟨hL, hH⟩ := m.newCells I.heap ⟨R.lowNM, R.highNM⟩
   obtain ⟨l', hthr, hb⟩ := stepK_threads I R hl hk
   exact rinv_step R hthr hlen (fun c h => Nat.lt_of_lt_of_le (hb c h) hlen) hL hH
 
